@@ -149,6 +149,16 @@ func c16Run(env *fw.Env, idx int) fw.Result {
 	if err := freshDir("/v"); err != nil {
 		return fw.Result{Verdict: fw.Inconclusive, Msg: err.Error()}
 	}
+	if idx%3 == 0 {
+		// a link that only a relative allow-list entry permits: the entry is
+		// relative to the source directory, however that directory is named
+		opts.Allow = []string{"../shared"}
+		t.Nodes = append(t.Nodes, gen.NodeSpec{Path: "to-shared.txt", Kind: "link", Target: "../shared/x.txt"})
+		mustWrite("/v/work/shared/x.txt", "shared", 0644)
+		os.Chtimes("/v/work/shared/x.txt", time.Unix(1500000000, 0), time.Unix(1500000000, 0))
+		res.Hash = fw.HashString(t.Key() + rules + opts.String())
+		res.Case = map[string]interface{}{"tree": t.Strings(), "rules": rules, "opts": opts.String()}
+	}
 	os.MkdirAll("/v/else/deep", 0755)
 	os.MkdirAll("/v/links", 0755)
 	if err := c16Materialise("/v/work/"+tn, t, rules); err != nil {
